@@ -58,4 +58,7 @@ RULES = [
     ("C05-R6", "scratch range restored between passes", r6_restore),
     ("C05-R7", "the range don't-care keys on the bound the fit uses",
      r7_dont_care_agreement),
+    ("C05-R8", "a request is copied into the settings in an order in which "
+     "every setting is judged against the new values it depends on",
+     fitclauses.clause_store_order),
 ]
